@@ -350,6 +350,16 @@ func newRig(total, perPeer uint64, retries int) *rig {
 			return false, "a dying queue is inside ReleasePeerMemory"
 		}
 		return true, ""
+	}, func() (bool, string) {
+		// a queue that was told to shut down is busy until its run loop has exited
+		r.mu.Lock()
+		defer r.mu.Unlock()
+		for _, q := range r.queues {
+			if atomic.LoadInt64(&q.shutdown) != 0 && atomic.LoadInt64(&q.exited) == 0 && atomic.LoadInt64(&q.started) != 0 {
+				return false, shuttingDown
+			}
+		}
+		return true, ""
 	})
 	return r
 }
@@ -361,7 +371,9 @@ func (r *rig) close() {
 	verifhook.Reset()
 }
 
-func (r *rig) quiesce() (bool, string) { return r.q.Await(5, 60*time.Second) }
+const shuttingDown = "a message queue was told to shut down and its run loop has not exited"
+
+func (r *rig) quiesce() (bool, string) { return r.q.Await(5, 20*time.Second) }
 
 func (r *rig) liveQueues(p peer.ID) []*qinfo {
 	r.mu.Lock()
@@ -686,6 +698,11 @@ func TestQueue(t *testing.T) {
 			return map[string]any{"case": ci, "peers": npeers, "producers": nprod, "retries": retries, "fault": faultKind, "fail_every": failEvery, "targeted_shutdown_delay": targeted,
 				"builds": bl, "queues": ql, "connection_events": fls, "event_log_tail": w.log.Tail(80)}
 		}
+		if inc == shuttingDown && p.Prop == "C17" {
+			rep.Violation(ci, "C17/queue-never-exits-after-shutdown", "a queue whose peer's last connection went away was shut down but its run loop is still live after 20 s with nothing else happening", detail())
+			w.close()
+			continue
+		}
 		if inc != "" {
 			rep.Inconclusive("case %d: %s", ci, inc)
 			w.close()
@@ -727,29 +744,8 @@ func checkC16(rep *rt.Reporter, ci int, w *world, detail func() map[string]any) 
 		parties[k] = v
 	}
 	w.mu.Unlock()
-	for _, pt := range parties {
-		pt.mu.Lock()
-		evs := append([]termEvent(nil), pt.events...)
-		after := append([]string(nil), pt.after...)
-		pt.mu.Unlock()
-		if len(after) > 0 {
-			rep.Violation(ci, "C16/event-after-close", after[0], detail())
-			return
-		}
-		// per topic: at most one terminal event
-		perTopic := map[notifications.Topic]int{}
-		for _, e := range evs {
-			if e.Name == messagequeue.Sent || e.Name == messagequeue.Error {
-				perTopic[e.Topic]++
-			}
-		}
-		for tp, n := range perTopic {
-			if n > 1 {
-				rep.Violation(ci, "C16/reported-twice", fmt.Sprintf("message topic %v was reported %d times (sent/failed) to the party of request %s", tp, n, pt.req.String()[:8]), detail())
-				return
-			}
-		}
-	}
+	// (topics are numbered per queue instance, so a party cannot tell messages of successive
+	// queues apart by topic: exactly-once is decided per build id carried in the event metadata)
 	covered := map[int64]int{}
 	var errEvents []termEvent
 	errByReq := map[graphsync.RequestID][]termEvent{}
@@ -873,7 +869,18 @@ func checkC17(rep *rt.Reporter, ci int, w *world, peers []peer.ID, refs []int, d
 				continue
 			}
 			if pb < pa {
-				rep.Violation(ci, "C17/out-of-order", fmt.Sprintf("build %d was queued (returned at %d) before build %d was started (%d) for the same peer, but left in wire message %d after build %d's message %d", a.ID, a.Ret, b.ID, b.Call, pa, b.ID, pb), detail())
+				sig := "C17/out-of-order"
+				// known-finding predicate (factory events only): a successor queue for the peer was created after the
+				// earlier build started and before the later build returned, i.e. the two builds went to a
+				// predecessor queue and its replacement, whose lifetimes overlap
+				w.rig.mu.Lock()
+				for _, q := range w.queues {
+					if q.p == a.Peer && q.created > a.Call && q.created <= b.Ret {
+						sig = "C17/reorder-across-queue-replacement"
+					}
+				}
+				w.rig.mu.Unlock()
+				rep.Violation(ci, sig, fmt.Sprintf("build %d was queued (returned at %d) before build %d was started (%d) for the same peer, but left in wire message %d after build %d's message %d", a.ID, a.Ret, b.ID, b.Call, pa, b.ID, pb), detail())
 				return
 			}
 		}
@@ -1003,6 +1010,7 @@ func TestLedger(t *testing.T) {
 		rep.Journal("case %d peers=%d requests=%d fault=%s failAt=%d hold=%v retries=%d ext=%v", ci, npeers, len(plans), fault, failAt, hold, retries, hasExt)
 		var wg sync.WaitGroup
 		var opsDone int64
+		lastOp := make([]int64, npeers) // logical clock of the last completed operation per peer
 		for _, pl := range plans {
 			wg.Add(1)
 			go func(pl reqPlan) {
@@ -1030,6 +1038,13 @@ func TestLedger(t *testing.T) {
 						return nil
 					})
 					atomic.AddInt64(&opsDone, 1)
+					now := mon.Tick()
+					for {
+						old := atomic.LoadInt64(&lastOp[pl.peer])
+						if now <= old || atomic.CompareAndSwapInt64(&lastOp[pl.peer], old, now) {
+							break
+						}
+					}
 				}
 			}(pl)
 		}
@@ -1066,9 +1081,23 @@ func TestLedger(t *testing.T) {
 			real := w.led.real.AllocatedForPeer(pp)
 			if real != 0 {
 				sig := "C15/memory-left-allocated-on-idle-queue"
-				if hasExt {
-					sig = "C15/extension-bytes-never-released"
+				// known-finding predicate: response data was still being queued for the peer after one of its
+				// queues had begun shutting down (data built into a dying queue is never sent, failed or released)
+				w.rig.mu.Lock()
+				for _, q := range w.queues {
+					if q.p != pp {
+						continue
+					}
+					sd, ex := atomic.LoadInt64(&q.shutdown), atomic.LoadInt64(&q.exited)
+					first := sd
+					if first == 0 || (ex != 0 && ex < first) {
+						first = ex
+					}
+					if first != 0 && first < atomic.LoadInt64(&lastOp[i]) {
+						sig = "C15/build-into-dying-queue"
+					}
 				}
+				w.rig.mu.Unlock()
 				rep.Violation(ci, sig, fmt.Sprintf("peer p%d's queue is idle but %d bytes are still accounted to it (ledger: reserved-released = %d)", i, real, w.led.held(pp)), detail())
 				break
 			}
